@@ -191,6 +191,10 @@ prop('C20',
               conform={'quick': 100, 'thorough': 1000}, nvals=12),
          dict(harness='c20_block_cid', covers=['c20.delivered', 'c20.dropped'], min_paths=1000, split=6,
               conform={'quick': 100, 'thorough': 2000}, nvals=10),
+         dict(harness='c20_message_received', covers=['c20m.blocks-reported', 'c20m.nothing-acceptable', 'c20m.some-block-dropped'], min_paths=100, split=3,
+              conform={'quick': 100, 'thorough': 1000}, nvals=10),
+         dict(harness='c20_send_response', covers=['c20s.sent', 'c20s.mixed', 'c20s.suspended'], min_paths=50, split=3,
+              params={'quick': {'io_budget': 1}, 'thorough': {'io_budget': 3}}, conform={'quick': 100, 'thorough': 1000}, nvals=12),
      ],
      bounds={'blocks': '1..3', 'block size': '<= 2^23 symbolic', 'batch limit': '<= 2^22 symbolic',
              'prefix': '4 varints (version 0..2, codec/hash type 64-bit symbolic, advertised length 0..256) + junk/truncation', 'block data': '3 concrete bytes'},
